@@ -2,7 +2,7 @@
  * compare_restart_point is replaced by a contract relative to a ghost boundary vg_B (restart keys are sorted, so
  * "restart key i < target" holds exactly for i < vg_B); seek_to_restart_point and parse_next_key are replaced by capture
  * contracts.  Obligation: the scan starts from restart 0 or from a restart point whose key is < target; both loops terminate. */
-#include "/repo/mtbl/block.c"
+#include "mtbl/block.c"
 #include "spec/ghost.h"
 
 uint32_t vg_B;                 /* number of restart points whose key is < target (0..num_restarts) */
